@@ -37,8 +37,22 @@ def install_demo(src, wt):
         for f in rs:
             m = os.path.splitext(os.path.basename(f))[0]
             shutil.copy(f, os.path.join(wt, "src", m + ".rs"))
-            with open(os.path.join(wt, "src", "lib.rs"), "a") as fh:
-                fh.write("\n#[cfg(test)]\nmod %s;\n" % m)
+            # a demo may ask to be mounted as a child of a module (it needs private items):
+            # its header then names the parent file and gives the mount line.
+            head = "".join(l for l in open(f).read().splitlines(True)[:40] if l.startswith("//"))
+            mount = re.search(r'#\[cfg\(test\)\]\s*#\[path\s*=\s*"([^"]+)"\]\s*mod\s+(\w+);', head)
+            parent = [x for x in re.findall(r'(src/[\w/]+\.rs)', head)
+                      if os.path.exists(os.path.join(wt, x)) and not x.endswith("/" + m + ".rs")]
+            if mount and parent:
+                parent = parent[0]
+                dest = os.path.normpath(os.path.join(wt, os.path.dirname(parent), mount.group(1)))
+                if not os.path.exists(dest):
+                    shutil.copy(f, dest)
+                with open(os.path.join(wt, parent), "a") as fh:
+                    fh.write("\n#[cfg(test)]\n#[path = \"%s\"]\nmod %s;\n" % (mount.group(1), mount.group(2)))
+            else:
+                with open(os.path.join(wt, "src", "lib.rs"), "a") as fh:
+                    fh.write("\n#[cfg(test)]\nmod %s;\n" % m)
             mods.append(m)
         kind.append(("rust", mods))
     if py:
@@ -52,20 +66,33 @@ def run_demo(kind, wt, tdir):
     """True when every demo passes."""
     ok = True
     logs = []
+    each = []
     for k, items in kind:
         if k == "rust":
             for m in items:
                 rc, out = sh("cargo test --offline --lib %s:: 2>&1 | tail -40" % m, wt, {"CARGO_TARGET_DIR": tdir, "RUST_BACKTRACE": "0"})
                 passed = bool(re.search(r"test result: ok\. [1-9]\d* passed; 0 failed", out))
+                if not passed and ("undefined symbol" in out or "undefined reference" in out or "linking with" in out):
+                    # a demo that calls PyResult-returning functions needs libpython on the link line (no interpreter is started)
+                    import sysconfig
+                    L = sysconfig.get_config_var("LIBDIR")
+                    V = sysconfig.get_config_var("LDVERSION")
+                    rc, out = sh("cargo test --offline --lib %s:: 2>&1 | tail -40" % m, wt,
+                                 {"CARGO_TARGET_DIR": tdir + "-py", "RUST_BACKTRACE": "0", "LD_LIBRARY_PATH": L,
+                                  "RUSTFLAGS": "-C link-arg=-L%s -C link-arg=-lpython%s -C link-arg=-Wl,-rpath,%s" % (L, V, L)})
+                    passed = bool(re.search(r"test result: ok\. [1-9]\d* passed; 0 failed", out))
+                    logs.append("(relinked with libpython)")
                 logs.append("cargo test --lib %s:: -> %s" % (m, "pass" if passed else "FAIL"))
                 ok = ok and passed
+                each.append(passed)
         else:
             rc, out = sh("cargo build --offline 2>&1 | tail -3 && cp %s/debug/libgufo_snmp.so src/gufo/snmp/_fast.so" % tdir, wt, {"CARGO_TARGET_DIR": tdir})
             for script in items:
                 rc, out = sh("PYTHONPATH=%s/src timeout 300 python3 %s" % (wt, script), wt)
                 logs.append("python3 %s -> exit %d" % (script, rc))
                 ok = ok and rc == 0
-    return ok, logs
+                each.append(rc == 0)
+    return ok, logs, each
 
 
 def main():
@@ -104,13 +131,15 @@ def main():
             res["ok"] = False
             res["why"] = "no demo files"
             return finish(res, src, name, prop, meta)
-        ok_clean, logs = run_demo(kind, wt, tdir)
+        ok_clean, logs, each_clean = run_demo(kind, wt, tdir)
         res["steps"] += ["clean tree: " + l for l in logs]
         # 3. demo on the changed tree
         rc, out = sh("git apply %s" % patch, wt)
-        ok_patched, logs = run_demo(kind, wt, tdir)
+        ok_patched, logs, each_patched = run_demo(kind, wt, tdir)
         res["steps"] += ["patched tree: " + l for l in logs]
-        res["ok"] = bool(ok_clean and not ok_patched)
+        # confirmed by any one demonstration that passes on the unchanged tree and fails on the changed one (a second
+        # demonstration that cannot be mounted by this script does not count either way)
+        res["ok"] = bool(ok_clean and not ok_patched) or any(c and not p_ for c, p_ in zip(each_clean, each_patched))
         if not res["ok"]:
             res["why"] = "demo clean=%s patched=%s (want pass / fail)" % (ok_clean, ok_patched)
         return finish(res, src, name, prop, meta)
